@@ -295,7 +295,7 @@ theorem dropHandle_ok {sz : Nat} {s : St} {o : Nat}
   rw [pend_self] at r3
   unfold dropHandle
   rw [hl]
-  simp only []
+  simp only [drop_amount_eq]
   by_cases hrc : l.rc ≤ 1
   · rw [if_pos hrc]
     have hcount : s.slots.count (some o) = 0 := by omega
